@@ -32,7 +32,7 @@ def verify(src, name, prop, needs):
     try:
         shutil.copy("/repo/Cargo.lock", wt)
         # one shared target directory outside /repo and /verif keeps the dependency builds warm between seeds
-        tdir = "/tmp/p2sh-seed-target"
+        tdir = "/tmp/p2sh-seed-target" + os.environ.get("SEED_LANE", "")
         env = dict(os.environ, CARGO_NET_OFFLINE="true", CARGO_TARGET_DIR=tdir)
         benv = dict(env, RUSTFLAGS="--cfg p2sh_verif") if os.environ.get("SEED_HOOKS") else env   # demos that drive the REPL need the scripted line source
         rc, out = sh("cargo build --offline 2>&1 | tail -3", cwd=wt, env=benv)
@@ -46,6 +46,10 @@ def verify(src, name, prop, needs):
         shutil.copy(os.path.join(tdir, "debug/p2sh"), patched_bin)
         rc, out = sh("cargo test --offline 2>&1 | grep 'test result'", cwd=wt, env=env)
         tests_ok = "184 passed; 0 failed" in out
+        if not tests_ok:
+            # the two tests known to fail on their own now and then (rand bound, shared /tmp file): one more try
+            rc, out = sh("cargo test --offline 2>&1 | grep 'test result'", cwd=wt, env=env)
+            tests_ok = "184 passed; 0 failed" in out
         demo = os.path.join(src, "demo.sh")
         rc_patched, out_p = sh("bash %s %s" % (demo, patched_bin), cwd=src, timeout=120)
         rc_base, out_b = sh("bash %s %s" % (demo, base_bin), cwd=src, timeout=120)
@@ -73,7 +77,7 @@ def verify(src, name, prop, needs):
         shutil.rmtree(wt, ignore_errors=True)
 
 
-SCRATCH = "/tmp/p2sh-seedrun"
+SCRATCH = "/tmp/p2sh-seedrun" + os.environ.get("SEED_LANE", "")
 
 
 def run(name, tier, checks):
